@@ -41,11 +41,35 @@ impl<'a, K> BSetIter<'a, K> {
             }
     { unimplemented!() }
 
+    // DoubleEndedIterator::rev: the same elements in the opposite order
+    #[verifier::external_body]
+    pub fn rev(self) -> (r: BSetIter<'a, K>)
+        ensures r.rem() == self.rem().reverse()
+    { unimplemented!() }
+
+    // Iterator::filter(..).count(): the predicate is called once per element (bs[i] = what it
+    // returned for element i); count() = how many times it returned true
+    #[verifier::external_body]
+    pub fn filter<F: FnMut(&&'a K) -> bool>(self, f: F) -> (r: BSetFiltered<'a, K>)
+        requires forall|i: int| 0 <= i < self.rem().len() ==> f.requires((&&#[trigger] self.rem()[i],)),
+        ensures exists|bs: Seq<bool>| #[trigger] filter_count_of(bs, self.rem().len(), r.cnt())
+            && forall|i: int| 0 <= i < bs.len() ==> f.ensures((&&self.rem()[i],), #[trigger] bs[i]),
+    { unimplemented!() }
+
     // Iterator::take: "yields the first n elements, or fewer if the underlying iterator ends sooner"
     #[verifier::external_body]
     pub fn take(self, n: usize) -> (r: BSetItems<'a, K>)
         ensures r.items() == (if n <= self.rem().len() { self.rem().take(n as int) } else { self.rem() })
     { unimplemented!() }
+}
+pub open spec fn filter_count_of(bs: Seq<bool>, n: nat, cnt: nat) -> bool { bs.len() == n && cnt == bs.filter(|b: bool| b).len() }
+#[verifier::external_body]
+#[verifier::reject_recursive_types(K)]
+pub struct BSetFiltered<'a, K> { inner: std::marker::PhantomData<&'a K> }
+impl<'a, K> BSetFiltered<'a, K> {
+    pub uninterp spec fn cnt(&self) -> nat;
+    #[verifier::external_body]
+    pub fn count(self) -> (n: usize) ensures n == self.cnt() { unimplemented!() }
 }
 impl<'a, K> BSetItems<'a, K> {
     pub uninterp spec fn items(&self) -> Seq<K>;
@@ -186,3 +210,46 @@ impl<K, V> HashMap<K, V> {
             forall|k: K| #[trigger] self@.contains_key(k) ==> exists|i: int| 0 <= i < it.rem().len() && it.rem()[i].0 == k,
     { unimplemented!() }
 }
+
+// ---------------------------------------------------------------------------------------------
+// `SLICE.iter().enumerate()` (token substitution `SLICE.iter().enumerate()` -> `vx_enumerate(SLICE)`,
+// as R20 of unit topic_cache: Verus cannot attach a specification to the provided trait method
+// Iterator::enumerate): yields "(i, val), where i is the current index of iteration [starting at 0]
+// and val is the value returned by the iterator".
+// ---------------------------------------------------------------------------------------------
+#[verifier::external_body]
+#[verifier::reject_recursive_types(T)]
+pub struct VxEnumerate<'a, T> { inner: std::iter::Enumerate<std::slice::Iter<'a, T>> }
+impl<'a, T> VxEnumerate<'a, T> {
+    pub uninterp spec fn rem(&self) -> Seq<T>;
+    pub uninterp spec fn pos(&self) -> nat;
+    #[verifier::external_body]
+    pub fn next(&mut self) -> (r: Option<(usize, &'a T)>)
+        ensures
+            match r {
+                None => old(self).rem().len() == 0 && final(self).rem() == old(self).rem() && final(self).pos() == old(self).pos(),
+                Some((i, x)) => old(self).rem().len() > 0 && i == old(self).pos() && *x == old(self).rem()[0]
+                    && final(self).rem() == old(self).rem().skip(1) && final(self).pos() == old(self).pos() + 1,
+            }
+    { unimplemented!() }
+}
+#[verifier::external_body]
+pub fn vx_enumerate<'a, T>(s: &'a [T]) -> (r: VxEnumerate<'a, T>)
+    ensures r.rem() == s@, r.pos() == 0
+{ unimplemented!() }
+
+// ---------------------------------------------------------------------------------------------
+// <[T]>::sort_by_cached_key: "Sorts the slice with a key extraction function [...] This sort is
+// stable" — ASSUMED: the result is a permutation of the input, ordered by the extracted keys
+// (K's Ord).  (Stability is not stated: no obligation of this unit needs it.)
+// ---------------------------------------------------------------------------------------------
+pub open spec fn sorted_by_keys<K: Ord>(ks: Seq<K>) -> bool {
+    forall|i: int, j: int| 0 <= i < j < ks.len() ==> kle(#[trigger] ks[i], #[trigger] ks[j])
+}
+pub assume_specification<T, K: Ord, F: FnMut(&T) -> K> [ <[T]>::sort_by_cached_key ] (s: &mut [T], f: F)
+    requires forall|i: int| 0 <= i < old(s)@.len() ==> f.requires((&#[trigger] old(s)@[i],)),
+    ensures
+        final(s)@.to_multiset() == old(s)@.to_multiset(),
+        // the key function is called once per element; ks[i] is the key it returned for final(s)[i]
+        exists|ks: Seq<K>| ks.len() == final(s)@.len() && #[trigger] sorted_by_keys(ks)
+            && forall|i: int| 0 <= i < ks.len() ==> f.ensures((&final(s)@[i],), #[trigger] ks[i]);
